@@ -6,8 +6,12 @@ package main
 
 import (
 	"bytes"
+	"crypto/sha256"
 	"encoding/binary"
+	"fmt"
+	"math/big"
 	"os"
+	"os/signal"
 	"path/filepath"
 	"syscall"
 
@@ -53,6 +57,9 @@ func c05Err(err error) []string {
 	}
 	if pe, ok := err.(*os.PathError); ok && pe.Err == syscall.EINVAL {
 		return errs(2)
+	}
+	if pe, ok := err.(*os.PathError); ok && (pe.Err == syscall.EFBIG || pe.Err == syscall.ENOSPC) {
+		return errs(4) // write(2) refused by the OS
 	}
 	return errs(99)
 }
@@ -170,6 +177,10 @@ func init() {
 				b, err := os.ReadFile(ptttype.FN_PASSWD)
 				must(err)
 				return okb(b)
+			case 12:
+				return c05History(fn, args)
+			case 13, 14:
+				return c05Window(filepath.Join(dir, ".DIR.big"), ai(args[0][0]) == 14, args)
 			case 10: // the delete tag the build uses
 				return okb([]byte(ptttype.FN_SAFEDEL))
 			}
@@ -190,4 +201,165 @@ func c05Packed(sz int64) int {
 		return binary.Size(&ptttype.UserecRaw{})
 	}
 	panic("badcase:stride")
+}
+
+// ------------------------------------------------------------------ histories in one process, refused writes interleaved
+
+// c05Refusing runs f while the OS refuses every write(2) to a regular file of this process: RLIMIT_FSIZE = 0 with
+// SIGXFSZ ignored makes write return EFBIG (open, O_CREATE, flock, range locks, lseek and reads still work). Private to
+// this process - no shared device node such as /dev/full whose flock other processes could hold.
+func c05Refusing(f func()) {
+	signal.Ignore(syscall.SIGXFSZ)
+	var old syscall.Rlimit
+	must(syscall.Getrlimit(syscall.RLIMIT_FSIZE, &old))
+	must(syscall.Setrlimit(syscall.RLIMIT_FSIZE, &syscall.Rlimit{Cur: 0, Max: old.Max}))
+	defer func() { must(syscall.Setrlimit(syscall.RLIMIT_FSIZE, &old)) }()
+	f()
+}
+
+// op 12: [sz] f (hdr data)*  with hdr = [kind refused idx mtime recommend enable disable]; kind 1 append (data = record
+// image), 2 substitute at idx (0-based), 3 delete-mark idx (0-based, data = tag), 4 ModifyDirLite idx (1-based, data =
+// name). refused 0: the call is made on the scratch file; 1: on a copy of the scratch file ("another file") while the OS
+// refuses writes; 2: on the scratch file itself while the OS refuses writes. All in this process, in order.
+// Per step: status code |file| file-bytes (the scratch file after the step).
+func c05History(fn string, args [][]string) []string {
+	if len(args) < 3 || len(args)%2 != 1 {
+		return []string{"9"}
+	}
+	sz := ai(args[1][0])
+	must(os.WriteFile(fn, ab(args[2]), 0o600))
+	out := []string{"0"}
+	for k := 3; k+1 < len(args); k += 2 {
+		h, data := args[k], args[k+1]
+		if len(h) != 7 {
+			return []string{"9"}
+		}
+		kind, refused, idx := ai(h[0]), ai(h[1]), ai(h[2])
+		target := fn
+		if refused == 1 {
+			target = fn + ".other"
+			b, err := os.ReadFile(fn)
+			must(err)
+			must(os.WriteFile(target, b, 0o600))
+		}
+		var call func() (int64, error)
+		switch kind {
+		case 1:
+			v, stride := c05Record(sz, ab(data))
+			call = func() (int64, error) { i, err := cmsys.AppendRecord(target, v, stride); return int64(i), err }
+		case 2:
+			v, stride := c05Record(sz, ab(data))
+			call = func() (int64, error) { return 0, cmsys.SubstituteRecord(target, v, stride, int32(idx)) }
+		case 3:
+			_, stride := c05Record(sz, make([]byte, c05Packed(sz)))
+			if string(ab(data)) != ptttype.FN_SAFEDEL {
+				return []string{"9"}
+			}
+			call = func() (int64, error) { return 0, cmsys.DeleteRecord(target, ptttype.SortIdxInStore(idx), stride) }
+		case 4:
+			if sz != int64(ptttype.FILE_HEADER_RAW_SZ) {
+				return []string{"9"}
+			}
+			name := &ptttype.Filename_t{}
+			copy(name[:], ab(data))
+			call = func() (int64, error) {
+				return 0, ptt.ModifyDirLite(target, ptttype.SortIdx(idx), name, types.Time4(ai(h[3])), nil, nil, nil, int8(ai(h[4])), nil,
+					ptttype.FileMode(ai(h[5])), ptttype.FileMode(ai(h[6])))
+			}
+		default:
+			return []string{"9"}
+		}
+		var code int64
+		var err error
+		if refused != 0 {
+			c05Refusing(func() { code, err = call() })
+			if refused == 1 { // the copy must be as untouched as the original
+				a, e1 := os.ReadFile(fn)
+				b, e2 := os.ReadFile(target)
+				must(e1)
+				must(e2)
+				if !bytes.Equal(a, b) {
+					return []string{"0", "-1", "-1", "0"} // never a legal step result: the refused write changed its file
+				}
+				os.Remove(target)
+			}
+		} else {
+			code, err = call()
+		}
+		r := []string{"0", oi(code)}
+		if err != nil {
+			r = c05Err(err)
+		}
+		b, rerr := os.ReadFile(fn)
+		must(rerr)
+		out = append(out, r...)
+		out = append(out, oi(int64(len(b))))
+		out = append(out, ob(b)...)
+	}
+	return out
+}
+
+// ------------------------------------------------------------------ windows on large generated files
+
+// record i (1-based) of the generated .DIR: name "M.%010d.A.%03X" (1500000000+i, i&0xfff) NUL-padded to 28 bytes,
+// then the first 100 bytes of sha256("seed/i/0") .. sha256("seed/i/3"). checks/C05.py builds the same file.
+func c05GenRecord(seed, i int64) []byte {
+	rec := make([]byte, 0, 160)
+	name := []byte(fmt.Sprintf("M.%010d.A.%03X", 1500000000+i, i&0xfff))
+	rec = append(rec, name...)
+	rec = append(rec, make([]byte, 28-len(name))...)
+	for j := 0; j < 4; j++ {
+		h := sha256.Sum256([]byte(fmt.Sprintf("%d/%d/%d", seed, i, j)))
+		rec = append(rec, h[:]...)
+	}
+	return rec[:128]
+}
+
+var c05BigKey string // "<cnt>/<seed>" of the file currently on disk
+
+// op 13: [cnt start n desc] [seed] -> 0 k idx*            (the Aid of every summary GetRecords returned)
+// op 14: same                      -> 0 k first last H     H = sha256 over (idx as 8 bytes LE, the 128 bytes of the
+//                                                          returned header) of every summary in order, as a decimal number
+func c05Window(fn string, digest bool, args [][]string) []string {
+	if len(args) != 3 || len(args[1]) != 4 || len(args[2]) != 1 {
+		return []string{"9"}
+	}
+	cnt, start, n, desc, seed := ai(args[1][0]), ai(args[1][1]), ai(args[1][2]), ai(args[1][3]) != 0, ai(args[2][0])
+	if cnt < 0 || cnt > 4000000 || n > 8000000 {
+		return []string{"9"}
+	}
+	key := fmt.Sprintf("%d/%d", cnt, seed)
+	if key != c05BigKey {
+		buf := make([]byte, 0, cnt*128)
+		for i := int64(1); i <= cnt; i++ {
+			buf = append(buf, c05GenRecord(seed, i)...)
+		}
+		must(os.WriteFile(fn, buf, 0o600))
+		c05BigKey = key
+	}
+	bid := &ptttype.BoardID_t{'t', 'e', 's', 't'}
+	sums, err := cmsys.GetRecords(bid, fn, ptttype.SortIdx(start), int(n), desc)
+	if err != nil {
+		return c05Err(err)
+	}
+	out := ok(oi(int64(len(sums))))
+	if !digest {
+		for _, s := range sums {
+			out = append(out, oi(int64(s.Aid)))
+		}
+		return out
+	}
+	h := sha256.New()
+	first, last := int64(0), int64(0)
+	for k, s := range sums {
+		if k == 0 {
+			first = int64(s.Aid)
+		}
+		last = int64(s.Aid)
+		var ib [8]byte
+		binary.LittleEndian.PutUint64(ib[:], uint64(int64(s.Aid)))
+		h.Write(ib[:])
+		must(binary.Write(h, binary.LittleEndian, s.FileHeaderRaw))
+	}
+	return append(out, oi(first), oi(last), new(big.Int).SetBytes(h.Sum(nil)).String())
 }
